@@ -424,3 +424,22 @@ Proof.
   exists s, o. split; [exact H|]. split; [exact I|].
   vm_compute in H. injection H as <- <-. vm_compute. split; reflexivity.
 Qed.
+
+(* ---- the liveness half, as far as a sequential model can say it: in every state a PING is
+   answered with the PONG of its last parameter, so in particular after every history ---- *)
+
+Definition ping_event (src : option source) (tag : option str) (ps : list str) : event :=
+  mkEvent src tag (bs "PING") ps.
+
+Lemma ping_answered cfg s src tag ps :
+  handle cfg s (ping_event src tag ps) = Ok (handle_tags s (ping_event src tag ps), [OutSend s_PONG [last ps []]]).
+Proof. reflexivity. Qed.
+
+Theorem ping_after_every_history cfg h src tag ps :
+  exists s out s', run cfg state_init h = Ok (s, out) /\ Inv s /\
+    handle cfg s (ping_event src tag ps) = Ok (s', [OutSend s_PONG [last ps []]]) /\ Inv s'.
+Proof.
+  destruct (all_histories cfg h) as (s & out & Hrun & I).
+  exists s, out, (handle_tags s (ping_event src tag ps)). split; [exact Hrun|]. split; [exact I|].
+  split; [apply ping_answered|]. eapply same_struct_inv; [apply handle_tags_same|exact I].
+Qed.
